@@ -2959,6 +2959,8 @@ const C_ARR_CONST_1000: Out = { let a: GA<u8, N<1000>> = arr![9u8; 1000]; let mu
 const C_CDEFAULT_1024: Out = { let a: GA<u32, N<1024>> = GA::<u32, N<1024>>::const_default(); let mut i = 0; let mut h = 0u64; while i < 1024 { assert!(a.as_slice()[i] == 0); h = mix(h, a.as_slice()[i] as u64); i += 1; } assert!(a.as_slice().len() == 1024); (1024, 0, h, 0, 0) };
 const C_ARR_TYPE_1024: Out = { let a = arr![9u8; N<1024>]; let mut i = 0; while i < 1024 { assert!(a.as_slice()[i] == 9); i += 1; } assert!(a.as_slice().len() == 1024); (1024, 0, 9, 0, 0) };
 const C_ARR_CONST_1024: Out = { let a: GA<u8, N<1024>> = arr![9u8; 1024]; let mut i = 0; while i < 1024 { assert!(a.as_slice()[i] == 9); i += 1; } assert!(a.as_slice().len() == 1024); (1024, 0, 9, 0, 0) };
+const C_ARR_TYPE_1025: Out = { let a = arr![9u8; generic_array::typenum::Add1<generic_array::typenum::U1024>]; let mut i = 0; while i < 1025 { assert!(a.as_slice()[i] == 9); i += 1; } (a.as_slice().len(), 0, 9, 0, 0) };
+const C_ARR_TYPE_3000: Out = { let a = arr![9u16; generic_array::typenum::Prod<U3, generic_array::typenum::U1000>]; assert!(a.as_slice().len() == 3000 && a.as_slice()[2999] == 9); (3000, 0, 9, 0, 0) };
 const C_ARR_LIST_0: Out = { let a: GA<u8, N<0>> = arr![]; let mut i = 0; let mut h = 0u64; while i < 0 { assert!(a.as_slice()[i] as usize == (i * 3 + 1) % 256); h = mix(h, a.as_slice()[i] as u64); i += 1; } (0, 0, h, 0, 0) };
 const C_ARR_LIST_TRAILING_0: Out = { let a: GA<u8, N<0>> = arr![]; (a.as_slice().len(), 0, 0, 0, 0) };
 const C_ARR_LIST_1: Out = { let a: GA<u8, N<1>> = arr![1u8]; let mut i = 0; let mut h = 0u64; while i < 1 { assert!(a.as_slice()[i] as usize == (i * 3 + 1) % 256); h = mix(h, a.as_slice()[i] as u64); i += 1; } (1, 0, h, 0, 0) };
@@ -5392,6 +5394,8 @@ fn table() -> Vec<(&'static str, Out, fn() -> Out)> { vec![
     ("cdefault_1024", C_CDEFAULT_1024, (|| -> Out { let a: GA<u32, N<1024>> = GA::<u32, N<1024>>::const_default(); let mut i = 0; let mut h = 0u64; while i < 1024 { assert!(a.as_slice()[i] == 0); h = mix(h, a.as_slice()[i] as u64); i += 1; } assert!(a.as_slice().len() == 1024); (1024, 0, h, 0, 0) }) as fn() -> Out),
     ("arr_type_1024", C_ARR_TYPE_1024, (|| -> Out { let a = arr![9u8; N<1024>]; let mut i = 0; while i < 1024 { assert!(a.as_slice()[i] == 9); i += 1; } assert!(a.as_slice().len() == 1024); (1024, 0, 9, 0, 0) }) as fn() -> Out),
     ("arr_const_1024", C_ARR_CONST_1024, (|| -> Out { let a: GA<u8, N<1024>> = arr![9u8; 1024]; let mut i = 0; while i < 1024 { assert!(a.as_slice()[i] == 9); i += 1; } assert!(a.as_slice().len() == 1024); (1024, 0, 9, 0, 0) }) as fn() -> Out),
+    ("arr_type_1025", C_ARR_TYPE_1025, (|| -> Out { let a = arr![9u8; generic_array::typenum::Add1<generic_array::typenum::U1024>]; let mut i = 0; while i < 1025 { assert!(a.as_slice()[i] == 9); i += 1; } (a.as_slice().len(), 0, 9, 0, 0) }) as fn() -> Out),
+    ("arr_type_3000", C_ARR_TYPE_3000, (|| -> Out { let a = arr![9u16; generic_array::typenum::Prod<U3, generic_array::typenum::U1000>]; assert!(a.as_slice().len() == 3000 && a.as_slice()[2999] == 9); (3000, 0, 9, 0, 0) }) as fn() -> Out),
     ("arr_list_0", C_ARR_LIST_0, (|| -> Out { let a: GA<u8, N<0>> = arr![]; let mut i = 0; let mut h = 0u64; while i < 0 { assert!(a.as_slice()[i] as usize == (i * 3 + 1) % 256); h = mix(h, a.as_slice()[i] as u64); i += 1; } (0, 0, h, 0, 0) }) as fn() -> Out),
     ("arr_list_trailing_0", C_ARR_LIST_TRAILING_0, (|| -> Out { let a: GA<u8, N<0>> = arr![]; (a.as_slice().len(), 0, 0, 0, 0) }) as fn() -> Out),
     ("arr_list_1", C_ARR_LIST_1, (|| -> Out { let a: GA<u8, N<1>> = arr![1u8]; let mut i = 0; let mut h = 0u64; while i < 1 { assert!(a.as_slice()[i] as usize == (i * 3 + 1) % 256); h = mix(h, a.as_slice()[i] as u64); i += 1; } (1, 0, h, 0, 0) }) as fn() -> Out),
